@@ -162,6 +162,97 @@ def run(ck):
                             if comps is not None and all(model_dep(x) for x in comps):
                                 ok = all(z_degree(x, zat) == -1 for x in comps)
                         ck.check(ok, "C10.R2", inst + ":rho / Z once", f.site(), "the model density matrix entering the fidelity is not divided by Z exactly once")
+    # ------------------------------------------------------------------ R3 pure-state fidelity = |<target|psi>|^2 / Z, by value
+    # psi(space) and the normalisation are replaced by symbols (they are C01's matter): what is decided here is how the metric
+    # combines them with the target - which parts are multiplied with which, the conjugation, the squared modulus, one division by Z
+    fid = prog.func(M, "fidelity")
+
+    def _stub_psi(it, func, env, node):
+        o = it.new_tobj("tensor", T.stack0(T.sym("Pr"), T.sym("Pi")), (2, "N"), "fresh")
+        o.fw = 64
+        return VTens(o)
+
+    def _stub_Z(it, func, env, node):
+        o = it.new_tobj("tensor", T.sym("Z"), (), "fresh")
+        o.fw = 64
+        return VTens(o)
+
+    FSTUBS = {"ComplexWaveFunction.psi": _stub_psi, "PositiveWaveFunction.psi": _stub_psi, "WaveFunctionBase.psi": _stub_psi, "NeuralStateBase.normalization": _stub_Z}
+    for cls in ("PositiveWaveFunction", "ComplexWaveFunction"):
+        inst = "fidelity/%s:|<target|psi>|^2 / Z" % cls
+        with ck.guard("C10.R3", inst, fid.site()):
+            def thf(it, cls=cls):
+                s = make_state(it, cls)
+                return it.call_function(VFunc(fid), [s, api.cx_t(it, "target", ("N",))], {"space": tens(it, "space", ("N", "nv"))}, None)
+
+            for p in returning(paths_of(prog, thf, sticky=True, max_paths=30, stubs=FSTUBS), inst):
+                got = getattr(p.value, "term", None)
+                tr, ti, Pr, Pi, Z = (T.sym(x) for x in ("targetr", "targeti", "Pr", "Pi", "Z"))
+                mm_ = lambda a_, b_: T.app("matmul", a_, b_)  # noqa: E731
+                re_ = mm_(tr, Pr) + mm_(ti, Pi)
+                im_ = mm_(tr, Pi) - mm_(ti, Pr)
+                want = (re_ * re_ + im_ * im_) * T.inv(Z)
+                if got is None:
+                    ck.undecided("C10.R3", inst + " [%s]" % _c(p), fid.site(), "the fidelity is not a term the analyser can follow")
+                    continue
+                from .common import vec_dot_normal
+
+                g_ = pull_scalars(vec_dot_normal(got), {"Z"})
+                want = vec_dot_normal(want)
+                ok = g_ == want or T.ratfun_equal(g_, want)
+                if ok:
+                    ck.ok("C10.R3", inst + " [%s]" % _c(p), fid.site())
+                else:
+                    d = lin_diff(g_, want)
+                    # both sides are polynomials (over Z) in the four overlaps dot(target part, psi part) of free vectors, which are
+                    # algebraically independent: different polynomials are different functions
+                    def _plain(a_):
+                        return isinstance(a_, T.Sym) or (isinstance(a_, T.App) and a_.op == "dot" and all(hasattr(z, "single_atom") and isinstance(z.single_atom(), T.Sym) for z in a_.args))
+
+                    if d[0] == "unknown" and all(_plain(a_) for a_ in (g_ - want).atoms()):
+                        extra = sorted(str(T.P(a_)) for a_ in set(g_.atoms()) - set(want.atoms()))
+                        d = ("coeff", "the overlaps", "the polynomial %s" % (str(g_)[:160],), "(tr.Pr + ti.Pi)^2 + (tr.Pi - ti.Pr)^2 over Z" + (" (unexpected overlaps: %s)" % extra if extra else ""))
+                    ck.check(diff_verdict(d), "C10.R3", inst + " [%s]" % _c(p), fid.site(),
+                             "the pure-state fidelity is not (Re<t|psi>)^2 + (Im<t|psi>)^2 over Z with <t|psi> = sum conj(t) psi: " + diff_msg(d), got=str(g_)[:300])
+    # ------------------------------------------------------------------ R3 KL with a per-basis target dictionary: basis b's target meets basis b's model distribution
+    # (whatever the order in which the caller lists the bases; the dictionary's insertion order is not the list's order)
+    klf = prog.func(M, "KL")
+    rp = prog.func("qucumber.utils.unitaries", "rotate_psi")
+
+    def _stub_rot(it, func, env, node):
+        b = argp(env, 1)
+        given = env.get("psi")
+        if given is not None and not (isinstance(given, VConst) and given.value is None):
+            return given  # an explicit state is not what this rule is about
+        o = it.new_tobj("tensor", T.stack0(T.sym("rot[%s]r" % getattr(b, "tag", "?")), T.sym("rot[%s]i" % getattr(b, "tag", "?"))), (2, "N"), "fresh")
+        o.fw = 64
+        return VTens(o)
+
+    inst = "KL/dict target, bases listed in another order"
+    with ck.guard("C10.R3", inst, klf.site()):
+        def thd(it):
+            s = make_state(it, "ComplexWaveFunction")
+            b1, b2 = api.basis_str(it), api.basis_str(it)
+            b1.tag, b2.tag = "basisA", "basisB"
+            tgt = it.new_dict({})
+            tgt.obj.items[("sym", "basisA")] = api.cx_t(it, "tA", ("N",))
+            tgt.obj.items[("sym", "basisB")] = api.cx_t(it, "tB", ("N",))
+            return it.call_function(VFunc(klf), [s, tgt], {"space": tens(it, "space", ("N", "nv")), "bases": it.new_list([b2, b1])}, None)
+
+        for p in returning(paths_of(prog, thd, sticky=True, max_paths=30, stubs={rp.qualname: _stub_rot}), inst):
+            sk = [c for c in p.calls if c[0].endswith("_single_basis_KL")]
+            if len(sk) != 2:
+                ck.undecided("C10.R3", inst + " [%s]" % _c(p), klf.site(), "expected one single-basis KL per listed basis, found %d" % len(sk))
+                continue
+            for c in sk:
+                a0, a1 = argp(c[7], 0), argp(c[7], 1)
+                s0 = a0.syms() if a0 is not None and hasattr(a0, "syms") else set()
+                s1 = a1.syms() if a1 is not None and hasattr(a1, "syms") else set()
+                tk = {"A" for x in s0 if x.startswith("tA")} | {"B" for x in s0 if x.startswith("tB")}
+                mk_ = {"A" for x in s1 if x.startswith("rot[basisA]")} | {"B" for x in s1 if x.startswith("rot[basisB]")}
+                ck.check((tk == mk_) if (len(tk) == 1 and len(mk_) == 1) else None, "C10.R3", inst + ":target and model distribution of the same basis [%s]" % _c(p), klf.site(),
+                         "the target given for basis %s is compared with the model distribution rotated into basis %s: the dictionary's values are paired with the listed bases by position"
+                         % (sorted(tk), sorted(mk_)), key="C10.R3|KL|dict target misaligned")
     # ------------------------------------------------------------------ R3 single-basis KL
     skl = prog.func(M, "_single_basis_KL")
     with ck.guard("C10.R3", "_single_basis_KL", skl.site()):
